@@ -492,8 +492,13 @@ package main
 //@ pure func inStrings(l []string, x string) bool = (exists j int :: 0 <= j && j < len(l) && l[j] == x)
 //@ opaque func adminDirectoryVerdict(state *RuntimeState, user string) bool = inStrings(state.Config.Base.AdminUsers, user) || (exists g int :: 0 <= g && g < len(state.Config.Base.AdminGroups) && inStrings(directoryGroups(state, user), state.Config.Base.AdminGroups[g]))
 
+//@ ghost var ghostGroupsLookupFailed bool
 //@ func (*RuntimeState)._IsAdminUser
 //@   intmode math
+// "re-evaluated while the directory answers": the check gives no verdict (an error, on which the caller keeps the old
+// one) only when the directory look-up itself failed
+//@   atcall (*RuntimeState).getUserGroups sets ghostGroupsLookupFailed bool (s2 *RuntimeState, u string, g []string, err error) :: err != nil
+//@   ensures ret1 != nil ==> ghostGroupsLookupFailed   #C08.no-verdict-only-when-the-directory-look-up-fails @C08
 //@   reveal adminDirectoryVerdict
 //@   ensures ret1 == nil && ret0 ==> adminDirectoryVerdict(state, user)                                    #C08.admin-means-configured-name-or-group @C08
 //@   ensures ret1 == nil && !ret0 ==> !adminDirectoryVerdict(state, user)                                  #C08.configured-admins-are-recognised @C08
